@@ -2,11 +2,11 @@ SPECIFICATION Spec
 CONSTANTS
   Tokens <- AllTokens
   Tok <- TokTable
+  ArgSet <- Args_AllTokens_3
   FormatNames <- Names
   Files <- FileTable
   Lib <- LibTable
   StdinContent = "cy"
-  MaxArgs = 3
   StdoutKinds = {"pipe", "tty"}
 INVARIANT CliInv
 CHECK_DEADLOCK FALSE
